@@ -8,7 +8,7 @@ PROP = dict(
               '(+ XalanDOMStringPool, XalanDOMStringHashTable, XalanBitmap, XalanObjectCache) instantiated from /repo headers on a simulated '
               'MemoryManager, executed in lock-step against std:: reference models, with per-operation allocation-failure injection, ASan/UBSan, '
               'Xalan header assertions enabled',
-    level_text='Seeded sampling of operation histories (8..80 operations, arguments stored by value, interpreted modulo the current contents and  With a second manager, copy construction into it must take nothing from the source container manager. Strings are also given their own characters by pointer (insert, append, assign), and compare is called with counts that reach past the other string. With a second manager, copy construction into it must take nothing from the source container manager. Strings are also given their own characters by pointer (insert, append, assign), and compare is called with counts that reach past the other string.'
+    level_text='Seeded sampling of operation histories (8..80 operations, arguments stored by value, interpreted modulo the current contents and  With a second manager, copy construction into it must take nothing from the source container manager. Strings are also given their own characters by pointer (insert, append, assign), and compare is called with counts that reach past the other string.'
                'clamped to the preconditions the headers assert) over 10 container kinds x 3 element types (int, XalanDOMString, a counting type that '
                'owns memory from the simulated manager) with small knobs (initial buckets, load factor, erase threshold, degenerate hash, block size, '
                'capacity). After EVERY operation all observables (size, empty, iteration forwards/backwards, every index, front/back, membership and '
